@@ -87,11 +87,16 @@ R.contract(M_CMDM + ":Command.args_format", params={}, returns="ref ArgsFormat",
 R.contract(M_CCFG + ":CommandConfig.is_hidden", params={}, returns="bool", ensures=["result == self._hidden"], modifies=[])
 R.contract(M_CFG + ":Config.description", params={}, returns="str?", ensures=["(result is None) == (self._description is None)",
            "result is None or result == self._description"], modifies=[], assumed=True).is_property = True
-R.contract(M_CFG + ":Config.help", params={}, returns="str?", modifies=[], assumed=True).is_property = True
+R.contract(M_CFG + ":Config.help", params={}, returns="str?", ensures=["(result is None) == (self._help is None)",
+           "result is None or result == self._help"], modifies=[], assumed=True).is_property = True
+R.uf("fmt_count_args", ["ref ArgsFormat", "bool"], "int")
+R.uf("fmt_count_opts", ["ref ArgsFormat", "bool"], "int")
 R.contract(M_FMT + ":ArgsFormat.get_arguments", params={"include_base": "bool"}, returns="odict[str,ref Argument]",
-           ensures=["fresh(result)"], modifies=[], assumed=True).defaults = {"include_base": True}
+           ensures=["fresh(result)", "len(seq(result.values())) == fmt_count_args(self, include_base)", "(not result) == (fmt_count_args(self, include_base) == 0)"], modifies=[], assumed=True,
+           note="a new dict of the arguments; their number is a fixed view of the (immutable) format"
+           ).defaults = {"include_base": True}
 R.contract(M_FMT + ":ArgsFormat.get_options", params={"include_base": "bool"}, returns="odict[str,ref Option]",
-           ensures=["fresh(result)",
+           ensures=["fresh(result)", "len(seq(result.values())) == fmt_count_opts(self, include_base)", "(not result) == (fmt_count_opts(self, include_base) == 0)",
                     # the options of a format are in the normal form that Option.__init__ establishes (verified under C07)
                     "all(bool(result[k]._flags & 1) or result[k]._short_name is not None for k in result)"],
            modifies=[], assumed=True,
@@ -110,12 +115,21 @@ for _m, _p, _k in (("_render_sub_command_arguments", "arguments", "Argument"), (
     R.loop(M_CH + ":CommandHelp." + _m, 0, invariants=["layout.g_added == old(layout.g_added) + _i"],
            modifies=LAYOUT_MODS, fingerprint=" in %s" % _p)  # the invariant names no loop variable: a renamed one still verifies
 RSC = M_CH + ":CommandHelp._render_sub_command"
+SC_D = "(command._config._description is not None and len(command._config._description) > 0)"
+SC_H = "(command._config._help is not None and len(command._config._help) > 0)"
+SC_NA = "fmt_count_args(command._args_format, False)"
+SC_NO = "fmt_count_opts(command._args_format, False)"
 R.contract(
     RSC, params={"layout": "ref BlockLayout", "command": "ref Command"},
     ensures=[
         # a hidden sub-command adds nothing to the page; any other at least its name line and one more element
         "implies(command._config._hidden, layout.g_added == old(layout.g_added))",
         "implies(not command._config._hidden, layout.g_added >= old(layout.g_added) + 2)",
+        # exactly: the name line, two elements for a description, two for a help text, one per own argument and one per
+        # own option (each group with its separator) -- and a single empty line only if there is none of the four
+        "implies(not command._config._hidden, layout.g_added == old(layout.g_added) + 1 + (2 if %s else 0) + (2 if %s else 0)"
+        " + (%s + 1 if %s > 0 else 0) + (%s + 1 if %s > 0 else 0)"
+        " + (1 if (not %s and not %s and %s == 0 and %s == 0) else 0))" % (SC_D, SC_H, SC_NA, SC_NA, SC_NO, SC_NO, SC_D, SC_H, SC_NA, SC_NO),
     ],
     modifies=LAYOUT_MODS,
 )
